@@ -16,7 +16,9 @@ EXPLANATION = (
     "saturates stay saturated at the end of the day (effect summaries over access paths + CFG order). C19.c: its loop runs from "
     "the first compartment whose centre is at or below the table to the bottom of the profile and sets each cell to the "
     "saturation value of that same compartment (index agreement through temporaries). C19.d: every read of the adjusted field capacity (and of any other daily-updated state field of which "
-    "initialisation leaves a snapshot in the static profile) below the step goes through the state, never through the snapshot. NOT decided: range "
+    "initialisation leaves a snapshot in the static profile) below the step goes through the state, never through the snapshot. C19.e: the daily water-table series is interpolated on the observations' own dates "
+    "(time-weighted, never by position), no label store can append an entry for a date outside the period, and what is handed to the model is "
+    "restricted to the simulation days (the rule carries its own positive example, the pre-fix code, and fails closed if it stops matching it). NOT decided: range "
     "of adjusted field capacity, capillary-rise limit, interpolation of observations, equivalence of a very deep table "
     "with none (numeric).")
 
@@ -130,6 +132,95 @@ def rule_d(chk, prog):
     chk.floor("C19.d", n, 5, "reads of the adjusted field capacity below the step")
 
 
+# --------------------------------------------------------------------------------------------- C19.e
+
+_POSITIVE_EXAMPLE = """
+def f(df, ClockStruct):
+    z_gw = pd.Series(np.nan * np.ones(len(ClockStruct.time_span)), index=ClockStruct.time_span)
+    for row in range(len(df)):
+        date = df.Date.iloc[row]
+        z_gw.loc[date] = df["Depth(mm)"].iloc[row]
+    z_gw = z_gw.interpolate()
+    return z_gw
+"""
+
+
+def _label_enlargements(fn: ast.AST):
+    """stores `X.loc[k] = v` with a scalar label k (a store that silently appends a new entry when k is not in the index)"""
+    out = []
+    for a in walk_no_nested(fn):
+        if isinstance(a, ast.Assign):
+            for t in a.targets:
+                if isinstance(t, ast.Subscript) and isinstance(t.value, ast.Attribute) and t.value.attr == "loc" \
+                        and isinstance(t.slice, (ast.Name, ast.Attribute, ast.Call, ast.Constant)):
+                    out.append(a)
+    return out
+
+
+def _positional_interpolations(fn: ast.AST):
+    out = []
+    for c in walk_no_nested(fn):
+        if isinstance(c, ast.Call) and isinstance(c.func, ast.Attribute) and c.func.attr == "interpolate":
+            m = next((k.value for k in c.keywords if k.arg == "method"), c.args[0] if c.args else None)
+            if not (isinstance(m, ast.Constant) and m.value in ("time", "index", "values")):
+                out.append(c)
+    return out
+
+
+def rule_e(chk, prog):
+    """the daily water-table series follows the observations: it is interpolated on the observations' own dates (time-weighted, not by
+    position) and has exactly one entry per simulation day (no label store that can append an entry for a date outside the period)"""
+    ex = ast.parse(_POSITIVE_EXAMPLE).body[0]
+    if len(_label_enlargements(ex)) != 1 or len(_positional_interpolations(ex)) != 1:
+        raise AnalysisError("C19.e: the rule no longer recognises its positive example")
+    fi = prog.find_func("read_groundwater_table")
+    chk.fn(fi.key)
+    where = f"{fi.module}:{fi.qualname}"
+    flow = flow_of(fi)
+    n = 0
+    for a in _label_enlargements(fi.node):
+        n += 1
+        t = a.targets[0]
+        nid = flow.stmt_node.get(id(a))
+        guarded = nid is not None and any(
+            flow.cfg.nodes[x].kind == "test" and isinstance(flow.cfg.nodes[x].ast, ast.Compare) and isinstance(flow.cfg.nodes[x].ast.ops[0], ast.In)
+            and l is True and norm(flow.cfg.nodes[x].ast.left) == norm(t.slice) for x, l in flow.cfg.transitive_control_deps(nid))
+        if guarded:
+            chk.ok("C19.e", where, norm(a)[:80], "label store under a membership test of the label")
+        else:
+            chk.violation("C19.e", where, norm(a)[:80], "a label store with a date taken from the observations appends an entry when the date lies outside the "
+                          "simulation period: the series no longer has one entry per simulation day and the depths inside the period depend on the end date",
+                          loc=fi.loc(a))
+    for c in _positional_interpolations(fi.node):
+        n += 1
+        chk.violation("C19.e", where, norm(c)[:80], "interpolation by position: observations that are not one simulation day apart (or lie outside the period) "
+                      "are treated as equally spaced; the depth does not follow the configured observations linearly in time", loc=fi.loc(c))
+    interps = [c for c in walk_no_nested(fi.node) if isinstance(c, ast.Call) and isinstance(c.func, ast.Attribute) and c.func.attr == "interpolate"]
+    for c in interps:
+        if c not in _positional_interpolations(fi.node):
+            n += 1
+            chk.ok("C19.e", where, norm(c)[:80], "time-weighted interpolation on the observations' own dates")
+    # what is handed to the model: every definition reaching `<params>.z_gw = X.values` ends in a restriction to the simulation days
+    handed = [a for a in walk_no_nested(fi.node) if isinstance(a, ast.Assign) and isinstance(a.targets[0], ast.Attribute) and a.targets[0].attr == "z_gw"
+              and isinstance(a.value, ast.Attribute) and a.value.attr == "values" and isinstance(a.value.value, ast.Name)]
+    for a in handed:
+        nm = a.value.value.id
+        nid = flow.stmt_node[id(a)]
+        for d in flow.defs_reaching(nm, nid):
+            if d == ENTRY:
+                continue
+            da = flow.cfg.nodes[d].ast
+            n += 1
+            txt = norm(da)[:90]
+            v = da.value if isinstance(da, ast.Assign) else None
+            span = v is not None and any(isinstance(x, ast.Attribute) and x.attr == "time_span" for x in ast.walk(v))
+            if span:
+                chk.ok("C19.e", where, txt, "built on / restricted to the simulation days (time_span)")
+            else:
+                chk.violation("C19.e", where, txt, "the series handed to the model is not restricted to the simulation days", loc=fi.loc(da))
+    chk.floor("C19.e", n, 3, "constructions of the daily water-table series")
+
+
 def run(chk, prog, tier):
     res = batch(prog, [{"param_struct.water_table": 0}])[0]
     chk.fn(STEP_FN)
@@ -216,6 +307,7 @@ def run(chk, prog, tier):
     chk.floor("C19.b", n_checked, 8, "statements / calls after groundwater_inflow examined")
     rule_c(chk, prog)
     rule_d(chk, prog)
+    rule_e(chk, prog)
     chk.assume("A-1")
     chk.assume("A-10")
     chk.exhaustive = True
